@@ -125,11 +125,41 @@ func (m *Machine) checkListings(s *Snap, ord []*JobRec) {
 		found := false
 		err := m.w.PR.ReadJob(j.ID, func(pj *prunner.PipelineJob) { found = pj.ID == j.ID })
 		if err != nil || !found {
+			finished := m.mon.finished[j.ID] > 0 || j.CancelAcked || j.Replaced || j.Bad != "" || j.ShutdownSeq != 0
+			if m.cfg.Retention && finished {
+				// The snapshot was taken a moment ago; an automatic save may have applied retention since (the
+				// generated periods go down to 20 ms). Then the job is gone from every view, consistently.
+				if s2 := m.w.Snapshot(); s2.Jobs[j.ID] == nil {
+					m.w.Stats.hit("listing:retention-between-snapshot-and-read")
+					continue
+				}
+			}
 			m.fail("C15", "accepted job #%d not found by id: %v", j.AcceptIdx, err)
 		}
 	}
-	// HTTP view
+	// HTTP view. With retention settings an automatic save may remove finished jobs at any moment (periods go
+	// down to 20 ms): the answer is compared with a snapshot that was the same before and after the request.
 	code, body := m.w.get("/pipelines/jobs")
+	if m.cfg.Retention {
+		for try := 0; try < 4; try++ {
+			sA := m.w.Snapshot()
+			code, body = m.w.get("/pipelines/jobs")
+			sB := m.w.Snapshot()
+			same := len(sA.Jobs) == len(sB.Jobs)
+			for id := range sA.Jobs {
+				if sB.Jobs[id] == nil {
+					same = false
+				}
+			}
+			if same {
+				if len(sA.Jobs) != len(s.Jobs) {
+					m.w.Stats.hit("listing:retention-between-snapshot-and-read")
+				}
+				s = sA
+				break
+			}
+		}
+	}
 	if code != 200 {
 		m.fail("C15", "GET /pipelines/jobs -> %d", code)
 		return
